@@ -35,8 +35,8 @@ def _single_cases(draw, tier):
                         vol_max_p=3, vol_max_extra=3 if big else 2, micro=precision is None, long=True))
     if precision is not None:
         d["precision"] = precision
-    if draw(st.integers(0, 9)) == 0 and d["kind"] == "curve":
-        # n-D curve (4 coordinates)
+    if draw(st.integers(0, 9)) == 0:
+        # n-D shape (4 coordinates)
         d["P"] = [p + [p[0] * 0.5] * (4 - len(p)) for p in d["P"]]
         d["dim"] = 4
     pdim = len(d["degree"])
